@@ -27,7 +27,7 @@ type Pack struct {
 	Assumes    []string `json:"assumptions"`
 	Bounded    []string `json:"bounded"`
 	TimeoutS   int      `json:"timeout_s"`
-	Replay     string   `json:"replay_template"`
+	Replays    []ReplayTemplate `json:"replay_templates"`
 }
 
 type KnownFinding struct {
